@@ -23,6 +23,12 @@ CLAIMED = {
  'C13': dict(level='model_checking', technique='symbolic execution (z3) with unconstrained content id / size / mtime; the statement as an iff formula',
              text='re-executed <=> content changed (HASH) / size or mtime changed (METADATA) is a validity query over unbounded integers for inputs, output integrity and read-back, at top level and nested.',
              note='Trusted: environment model (stat/size/mtime/sha256 stubs), proxies, z3.'),
+ 'C12': dict(level='model_checking', technique='bounded symbolic execution (z3) of clean at symbolic history positions against the reference clean',
+             text='clean is inserted after commits, rollbacks, tampering and a previous clean; the resulting tree must equal the reference clean tree, clean twice equals once, clean without cache is a no-op and the following build must run everything.',
+             note='Trusted: environment model, reference model, z3.'),
+ 'C03': dict(level='model_checking', technique="bounded symbolic execution (z3): identity snapshot of every path outside the managed set before/after each API call, plus an allow-list over the library's mutating system calls",
+             text='Every universe path may initially be a foreign file or directory and mutations plant more; after every build (committed or rolled back) and clean the (inode, content id, mtime) of all foreign files must be unchanged (validity query) and no directory outside the recorded created set may disappear; every remove/rename/rmdir/rmtree/open-for-write the library issues is checked against the managed set.',
+             note='Trusted: environment model and its call log, reference model for the managed set, z3.'),
 }
 NA_REASON = 'check not built yet in this round (work in progress; see DESIGN.md section 12)'
 
